@@ -403,6 +403,36 @@ func init() {
 				}
 			}
 		}
+		// ONE method chained several times (n.Kid(1).Kid(0).Kid(1)), from a variable and after an index: every
+		// call is made on what the previous one returned
+		{
+			var mk func(path string, depth int) c11kid
+			mk = func(path string, depth int) c11kid {
+				k := c11kid{Name: path}
+				if depth > 0 {
+					k.Kids = []c11kid{mk(path+".Kids[0]", depth-1), mk(path+".Kids[1]", depth-1)}
+				}
+				return k
+			}
+			extra := map[string]interface{}{"n": mk("n", 4), "w": struct{ P c11kid }{mk("w.P", 3)}}
+			for _, t := range [][2]string{{"<%= n.Kid(1).Name %>", "n.Kids[1]"}, {"<%= n.Kid(1).Kid(0).Name %>", "n.Kids[1].Kids[0]"}, {"<%= n.Kid(1).Kid(0).Kid(1).Name %>", "n.Kids[1].Kids[0].Kids[1]"},
+				{"<%= w.P.Kid(1).Kid(0).Kid(1).Name %>", "w.P.Kids[1].Kids[0].Kids[1]"}, {"<%= n.Kids[1].Kid(0).Kid(1).Name %>", "n.Kids[1].Kids[0].Kids[1]"}, {"<% let q = n.Kid(0).Kid(0).Kid(0).Kid(1) %><%= q.Name %>", "n.Kids[0].Kids[0].Kids[0].Kids[1]"},
+				{"<%= for (k) in n.Kid(1).Kid(1).Kid(0).Kids { %><%= k.Name %>,<% } %>", "n.Kids[1].Kids[1].Kids[0].Kids[0],n.Kids[1].Kids[1].Kids[0].Kids[1],"}} {
+				o := runRenderExtra(RCase{Tmpl: t[0]}, extra)
+				e.rep.Evaluations++
+				e.Count("method-chained-repeatedly")
+				e.Distinct(t[0])
+				rp := map[string]interface{}{"tmpl": t[0], "observed": o}
+				switch {
+				case o.Class == "PANIC":
+					e.Violate("eval-panic@"+siteOf(o.Msg), fmt.Sprintf("Render panicked on %q: %s", t[0], o.Msg), rp)
+				case o.Class == "OK" && o.Out != t[1]:
+					e.Violate("c11-other-element", fmt.Sprintf("%s: Go yields %q, the template rendered %q", t[0], t[1], o.Out), rp)
+				case o.Class == "ERR":
+					e.Violate("c11-navigation-fails", fmt.Sprintf("%s: Go yields %q, the template failed: %s", t[0], t[1], firstLine(o.Msg)), rp)
+				}
+			}
+		}
 		// one member name indexed at THREE or more levels of a path (n.Kids[0].Kids[1].Kids[0]): Go navigates it.
 		// (evalIndexCallee used to guess the name the indexed value is bound to by a substring search over
 		// printed paths and bound Kids.Kids where the parser's placeholder says Kids: repaired in round 13)
@@ -537,6 +567,8 @@ type c11kid struct {
 	Name string
 	Kids []c11kid
 }
+
+func (k c11kid) Kid(i int) c11kid { return k.Kids[i] }
 
 // pointer-receiver methods, one of which hands back a pointer into the receiver
 type c11item struct {
